@@ -187,7 +187,14 @@ void add_exclusive_ops(Instance& in, bool enabled)
         auto h = w.lock();
         MC_CHECK(bool(h), "null-handle", "lock() returned a null handle");
         use_exclusive(h, hi, mutex_of(&w), enabled);
-        h = o.lock();
+        if (hi & 1) {
+            h = o.lock();  // from a temporary
+        } else {
+            auto h2 = o.lock();  // from a named handle that stays in scope
+            h = std::move(h2);
+            if (enabled) MC_CHECK(holds(mutex_of(&w)) == 0, "leaked-lock", "after h = std::move(h2) this thread still holds the first wrapper's lock (source handle still in scope)");
+            point();
+        }
         MC_CHECK(bool(h) && &*h == obj_of(&o), "handover-target", "after h = other.lock() the handle does not refer to the other object");
         if (enabled) MC_CHECK(holds(mutex_of(&w)) == 0, "leaked-lock", "after h = other.lock() this thread still holds the first wrapper's lock");
     };
@@ -290,7 +297,14 @@ void add_shared_ops(Instance& in, bool enabled)
         auto h = w.lock_shared();
         MC_CHECK(bool(h), "null-handle", "lock_shared() returned a null handle");
         use_shared(h, hi, mutex_of(&w), enabled);
-        h = o.lock_shared();
+        if (hi & 1) {
+            h = o.lock_shared();
+        } else {
+            auto h2 = o.lock_shared();
+            h = std::move(h2);
+            if (enabled) MC_CHECK(holds(mutex_of(&w)) == 0, "leaked-lock", "after h = std::move(h2) this thread still holds the first wrapper's lock (source handle still in scope)");
+            point();
+        }
         MC_CHECK(bool(h) && &*h == obj_of(&o), "handover-target", "after h = other.lock_shared() the handle does not refer to the other object");
         if (enabled) MC_CHECK(holds(mutex_of(&w)) == 0, "leaked-lock", "after h = other.lock_shared() this thread still holds the first wrapper's lock");
     };
